@@ -35,6 +35,20 @@
                      signal_wait(); }
   Node `M<k>` is named k+1 (0 = NULL); `M0` is the queue's initial stub; the harness sends
   value v in node M<v>.
+
+  try_receive (`callTry`, ghost/control flag `tryMode`): ONE pass of the receive loop, performing
+  exactly the accesses of the blocking receive up to the decision; where the blocking receive
+  would go to `signal_wait` the try variant returns "empty" (pc `tEmpty`, then `ret pop 0`):
+    bounded:   h = load(high); l = load(low); m = buffer[l & mask];
+               if (m && h > l) { buffer[i] = 0; store(low, l+1); *out = m; return 1; } return 0;
+    queues:    return trypop();      // h = head; x = h->next; if (!x) return NULL; …
+  NULL ready_signal (`spin = true`, "this channel will spin"): send publishes and returns 0
+  WITHOUT touching a signal (pc `sRaised v false` right after the publishing write: the next
+  logged event of the sender is the harness's `woke 0` note); the blocking receive that finds
+  nothing goes back to the top of its loop (`rTop`) — the bounded one through fiber_yield()
+  (scheduler traffic, skipped by projection), the unbounded / sp ones immediately, WITHOUT
+  yielding.  No protocol event is ever accepted in spin mode (nobody is in `rEmpty`,
+  `rWaiting`, `sPublished`, `sRaising`).
 -/
 import LibfiberVerif.Core.Sys
 import LibfiberVerif.Core.Event
@@ -83,11 +97,13 @@ inductive Pc
   | rEmpty                                -- found nothing: signal_wait next
   | rWaiting
   | rDone (v : Nat)
+  | tEmpty                                -- try_receive found nothing: returns "empty"
   deriving Repr, DecidableEq, Inhabited
 
 inductive Ev
   | callSend (f v : Nat) | woke (f : Nat) (r : Bool) | retSend (f : Nat)
   | callRecv (f : Nat) | retRecv (f v : Nat)
+  | callTry (f : Nat)                     -- `*_try_receive`; returns through `retRecv` (0 = empty)
   | p (e : PEv)
   -- bounded
   | ldLow (f l : Nat) | ldHigh (f h : Nat) | rBuf (f i x : Nat)
@@ -128,12 +144,35 @@ structure St where
   /-- ghost: every value ever passed to `send` (messages are distinct: for the queue kinds a
       message IS a caller-owned node, which must not be sent again while the channel owns it) -/
   used : List Nat
+  /-- the channel was created with a NULL ready_signal ("will spin") -/
+  spin : Bool := false
+  /-- the receive operation in progress is a `*_try_receive` (set by `callTry`, cleared by
+      `callRecv`; meaningful while the receiver is inside an operation) -/
+  tryMode : Bool := false
+  /-- ghost (bounded): the receiver's load of `high` in the current operation saw an EMPTY
+      channel (`high = low` at that instant, i.e. every claimed message already consumed);
+      reset by `callRecv` / `callTry`, set only by the receiver's `ldHigh` -/
+  emptySeen : Bool := false
+  /-- ghost: number of `*_try_receive` calls that reported "empty" -/
+  tryEmpty : Nat := 0
 
-def init (k : Kind) (cap : Nat) : St :=
+def initM (spin : Bool) (k : Kind) (cap : Nat) : St :=
   { kind := k, cap := cap, p := pinit, high := 0, low := 0, buf := fun _ => 0,
     order := [], linked := fun _ => false, hd := 0, headNode := 1, ndata := fun _ => 0,
     pc := fun _ => .idle, receiver := none, spSender := none, sent := [], recvd := [],
-    calls := fun _ => [], used := [] }
+    calls := fun _ => [], used := [], spin := spin }
+
+/-- a channel with a ready_signal -/
+def init (k : Kind) (cap : Nat) : St := initM false k cap
+
+/-- where the receive operation goes when it found nothing: try_receive returns "empty"; the
+    blocking receive of a spinning channel loops; otherwise fiber_signal_wait -/
+def emptyPc (s : St) : Pc :=
+  if s.tryMode then .tEmpty else if s.spin then .rTop else .rEmpty
+
+/-- where send goes after its publishing write: a spinning channel returns 0 at once -/
+def pubPc (s : St) (v : Nat) : Pc :=
+  if s.spin then .sRaised v false else .sPublished v
 
 def tailNode (s : St) : Nat := s.order.getLast?.getD 1
 
@@ -199,11 +238,16 @@ def step (s : St) : Ev → Option St
     | _ => none
   | .callRecv f =>
     if s.pc f = .idle ∧ (s.receiver = none ∨ s.receiver = some f) ∧ s.spSender ≠ some f then
-      some { s with receiver := some f, pc := upd s.pc f .rTop }
+      some { s with receiver := some f, tryMode := false, emptySeen := false, pc := upd s.pc f .rTop }
+    else none
+  | .callTry f =>
+    if s.pc f = .idle ∧ (s.receiver = none ∨ s.receiver = some f) ∧ s.spSender ≠ some f then
+      some { s with receiver := some f, tryMode := true, emptySeen := false, pc := upd s.pc f .rTop }
     else none
   | .retRecv f v =>
     match s.pc f with
     | .rDone v' => if v = v' then some { s with pc := upd s.pc f .idle } else none
+    | .tEmpty => if v = 0 then some { s with tryEmpty := s.tryEmpty + 1, pc := upd s.pc f .idle } else none
     | _ => none
   -- ------------------------------------------------------------------ signal protocol
   | .p (.callWait _) => none
@@ -226,7 +270,7 @@ def step (s : St) : Ev → Option St
     if s.kind ≠ .bounded ∨ h ≠ s.high then none else
     match s.pc f with
     | .sLdLow v l => some { s with pc := upd s.pc f (.sLdHigh v l h) }
-    | .rTop => some { s with pc := upd s.pc f (.rLdHigh h) }
+    | .rTop => some { s with emptySeen := decide (s.high = s.low), pc := upd s.pc f (.rLdHigh h) }
     | _ => none
   | .rBuf f i x =>
     if s.kind ≠ .bounded ∨ x ≠ s.buf i then none else
@@ -235,7 +279,7 @@ def step (s : St) : Ev → Option St
     | .rLdLow h l =>
       if i = l % s.cap then
         if x ≠ 0 ∧ h > l then some { s with pc := upd s.pc f (.rRdBuf h l x) }
-        else some { s with pc := upd s.pc f .rEmpty }
+        else some { s with pc := upd s.pc f (emptyPc s) }
       else none
     | _ => none
   | .casHigh f found exp new ok =>
@@ -252,7 +296,7 @@ def step (s : St) : Ev → Option St
     if s.kind ≠ .bounded then none else
     match s.pc f with
     | .sClaimed v h =>
-      if i = h % s.cap ∧ x = v then some { s with buf := upd s.buf i v, pc := upd s.pc f (.sPublished v) } else none
+      if i = h % s.cap ∧ x = v then some { s with buf := upd s.buf i v, pc := upd s.pc f (pubPc s v) } else none
     | .rRdBuf _ l m =>
       if i = l % s.cap ∧ x = 0 then some { s with buf := upd s.buf i 0, pc := upd s.pc f (.rCleared l m) } else none
     | _ => none
@@ -274,7 +318,7 @@ def step (s : St) : Ev → Option St
     match s.pc f with
     | .qData v => if n = v + 1 ∧ x = 0 then some { s with pc := upd s.pc f (.qCleared v) } else none
     | .qSwapped v prev i =>
-      if n = prev ∧ x = v + 1 then some { s with linked := upd s.linked i true, pc := upd s.pc f (.sPublished v) }
+      if n = prev ∧ x = v + 1 then some { s with linked := upd s.linked i true, pc := upd s.pc f (pubPc s v) }
       else none
     | _ => none
   | .xchgTail f old new =>
@@ -311,7 +355,7 @@ def step (s : St) : Ev → Option St
     match s.pc f with
     | .rGotHead h =>
       if n = h ∧ x = headNext s then
-        if x = 0 then some { s with pc := upd s.pc f .rEmpty }
+        if x = 0 then some { s with pc := upd s.pc f (emptyPc s) }
         else some { s with pc := upd s.pc f (.rGotNext h x) }
       else none
     | _ => none
@@ -332,7 +376,11 @@ def step (s : St) : Ev → Option St
     | .rWrote h d' => if n = h ∧ d = d' ∧ d = s.ndata h then some { s with pc := upd s.pc f (.rDone d) } else none
     | _ => none
 
+/-- channel with a ready_signal -/
 def sys (k : Kind) (cap : Nat) : Sys St Ev := { init := init k cap, step := step }
+
+/-- both creation modes: `sysM false` = `sys`, `sysM true` = NULL ready_signal (spinning) -/
+def sysM (spin : Bool) (k : Kind) (cap : Nat) : Sys St Ev := { init := initM spin k cap, step := step }
 
 /-! ### log decoding -/
 
@@ -363,6 +411,7 @@ def ofRaw (k : Kind) (r : RawEv) : Option (Option Ev) :=
   | "note", ["woke", v] => some (some (.woke f (v = "1")))
   | "note", ["ret", "push", _] => some (some (.retSend f))
   | "note", ["call", "pop"] => some (some (.callRecv f))
+  | "note", ["call", "pop", "try"] => some (some (.callTry f))
   | "note", ["ret", "pop", v] => v.toNat?.map (fun v => some (.retRecv f v))
   | "note", _ => some none
   | kd, args =>
@@ -415,6 +464,7 @@ def noteOfRaw (r : RawEv) : Option QueueHist.Note :=
   | ["call", "push", v] => v.toNat?.map (QueueHist.Note.callPush r.fiber)
   | ["ret", "push", v] => v.toNat?.map (QueueHist.Note.retPush r.fiber)
   | ["call", "pop"] => some (QueueHist.Note.callPop r.fiber)
+  | ["call", "pop", "try"] => some (QueueHist.Note.callPop r.fiber)
   | ["ret", "pop", v] => v.toNat?.map (QueueHist.Note.retPop r.fiber)
   | _ => none
 
@@ -439,19 +489,29 @@ def allReturned (lines : List String) : Bool :=
   go [] lines
 
 def kindOf : List String → Kind × Nat
-  | ["chan", "b", c] => (.bounded, c.toNat?.getD 0)
-  | ["chan", "u", _] => (.unbounded, 0)
-  | ["chan", "s", _] => (.sp, 0)
+  | "chan" :: "b" :: c :: _ => (.bounded, c.toNat?.getD 0)
+  | "chan" :: "u" :: _ => (.unbounded, 0)
+  | "chan" :: "s" :: _ => (.sp, 0)
   | _ => (.bounded, 0)
+
+/-- `init chan <kind> <cap> spin`: the channel was created with a NULL ready_signal -/
+def spinOf : List String → Bool
+  | [_, _, _, "spin"] => true
+  | _ => false
 
 def drive (lines : List String) : IO UInt32 := do
   let (k, cap) := kindOf (initArgs lines)
+  let spin := spinOf (initArgs lines)
   let body := lines.filter (fun l => !isInit l)
-  let v := validateP (sys k cap) (ofRaw k) body
+  let v := validateP (sysM spin k cap) (ofRaw k) body
   -- all sends complete ⇒ every message must have been received (the receiver's script
   -- receives as many as are sent); FIFO is promised per sender for the multi-sender kinds
+  -- a try_receive may report "empty" (`ret pop 0`) only if the channel was empty at some instant
+  -- of the call or a send was in flight (Props/C11 `try_empty_*`): at the API level, an EMPTY
+  -- whose call overlapped no send at all while a completed send was unreceived is a violation
   let cfg : QueueHist.Cfg :=
-    { disc := .fifo, capacity := cap, drained := allReturned body, checkEmpty := false, perProducerFifo := true }
+    { disc := .fifo, capacity := cap, drained := allReturned body, checkEmpty := true,
+      emptyOkInFlight := true, perProducerFifo := true }
   report "Chan" v (fiberQueueMonitor cfg body)
 
 end LibfiberVerif.Chan
